@@ -7,6 +7,35 @@ import os
 import vlib
 
 
+def xof_scripts(chk, scripts, label):
+    """Runs XOF scripts on the real XOFs and validates the recorded runs against spec/C11_Trace.tla, one TLC per family."""
+    fn = os.path.join(vlib.WORK, "c11_%s_scripts.ndjson" % label)
+    vlib.write_lines(fn, scripts)
+    trace = os.path.join(vlib.WORK, "c11_%s_trace.ndjson" % label)
+    out = vlib.run_harness(["c11", "xof", trace, str(chk.seed)], stdin_path=fn)
+    chk.evaluations += out[-1]["extra"]["events"]
+    lines = open(trace).read().splitlines()
+    by_family = {}
+    for l in lines:
+        by_family.setdefault(json.loads(l)["family"], []).append(l)
+    import concurrent.futures as cf
+
+    def val(item):
+        fam, ls = item
+        f = os.path.join(vlib.WORK, "c11_%s_%s.ndjson" % (label, fam))
+        vlib.write_lines(f, ls)
+        return fam, ls, vlib.validate_trace("C11_Trace", "C11_Trace", f, timeout=1500, tag="c11" + label + fam)
+    with cf.ThreadPoolExecutor(max_workers=4) as ex:
+        for fam, ls, (ok, un, r) in ex.map(val, by_family.items()):
+            chk.add_tlc(r, "%s-trace-%s" % (label, fam))
+            if ok:
+                chk.traces += 1
+            else:
+                e = json.loads(ls[un - 1]) if un else {}
+                chk.mismatch({"case": "xof/%s/%s" % (fam, e.get("api")), "event": {k: v for k, v in e.items() if k != "out"}, "index": un})
+    return lines, by_family
+
+
 def run(chk):
     thorough = chk.tier == "thorough"
     # (1) design: the look-ahead buffer machine refines the abstract sampler, for every stream / rejection pattern / switch schedule
@@ -42,30 +71,11 @@ def run(chk):
     scripts = sorted(res.replay)
     if not thorough:
         scripts = scripts[::7]   # reads vary fastest in the sorted order; 7 is coprime to the 20 read sequences
-    fn = os.path.join(vlib.WORK, "c11_xof_scripts.ndjson")
-    vlib.write_lines(fn, scripts)
-    trace = os.path.join(vlib.WORK, "c11_xof_trace.ndjson")
-    out = vlib.run_harness(["c11", "xof", trace, str(chk.seed)], stdin_path=fn)
-    chk.evaluations += out[-1]["extra"]["events"]
-    lines = open(trace).read().splitlines()
-    by_family = {}
-    for l in lines:
-        by_family.setdefault(json.loads(l)["family"], []).append(l)
-    import concurrent.futures as cf
-
-    def val(item):
-        fam, ls = item
-        f = os.path.join(vlib.WORK, "c11_xof_%s.ndjson" % fam)
-        vlib.write_lines(f, ls)
-        return fam, ls, vlib.validate_trace("C11_Trace", "C11_Trace", f, timeout=1500, tag="c11" + fam)
-    with cf.ThreadPoolExecutor(max_workers=4) as ex:
-        for fam, ls, (ok, un, r) in ex.map(val, by_family.items()):
-            chk.add_tlc(r, "xof-trace-" + fam)
-            if ok:
-                chk.traces += 1
-            else:
-                e = json.loads(ls[un - 1]) if un else {}
-                chk.mismatch({"case": "xof/%s/%s" % (fam, e.get("api")), "event": {k: v for k, v in e.items() if k != "out"}, "index": un})
+    res = vlib.run_tlc("MC_C11", "MC_C11_XofSep", workers=4, timeout=600, tag="c11xofsep")
+    vlib.tlc_ok(res, "MC_C11_XofSep")
+    chk.add_tlc(res, "xof-separation-scripts")
+    scripts += sorted(res.replay)
+    lines, by_family = xof_scripts(chk, scripts, "xof")
     chk.sample({"xof_event": {k: v for k, v in json.loads(lines[7]).items() if k != "out"}})
     if thorough:
         ls = list(by_family["fixedkey"][:300])
@@ -87,7 +97,8 @@ def run(chk):
         "1-byte field followed by a 32-byte field) are fed to the real Prng (hook H3) and to the public IntoFieldVec for all seven fields; the elements must be "
         "the accepted chunks, as computed by TLC. Binding (XOFs): every split of a 4-byte tag and binder into <= 3 parts x 20 read-size sequences (aligned, unaligned ending on, inside and beyond block boundaries) straddling 16/32-"
         "byte boundaries, on TurboSHAKE128, fixed-key AES128 (both construction APIs), HMAC-SHA256-AES128 and raw AES128-CTR with two seeds each; TLC checks all "
-        "runs are prefix-consistent views of one function per (family, seed, tag, binder), of exactly the requested length, and that derived seeds are stream prefixes."
+        "runs are prefix-consistent views of one function per (family, seed, tag, binder), of exactly the requested length, that derived seeds are stream prefixes, and "
+        "(separation scripts: multi-part tags/binders differing in exactly one part) that distinct (seed, tag, binder) never share their first 16 bytes."
         % (("15", "6") if thorough else ("12", "5")))
     chk.assumptions = ["the XOF primitives themselves (TurboSHAKE, AES, HMAC) are oracles; their test vectors are in the repository's suite"]
 
